@@ -50,6 +50,10 @@ Proof. intros. unfold stepS. destruct (c =? 10); reflexivity. Qed.
 Lemma set_ch_stepS : forall c r pos l k ll x ws y, set_ch (stepS c r pos l k ll x ws) y = stepS c r pos l k ll y ws.
 Proof. intros. unfold stepS. destruct (c =? 10); reflexivity. Qed.
 
+Lemma stepS_eq0 : forall c r pos pos' l k k' ll x ws, pos = pos' -> k = k' ->
+  stepS c r pos l k ll x ws = stepS c r pos' l k' ll x ws.
+Proof. intros. subst. reflexivity. Qed.
+
 (** ASCII identifier characters *)
 Definition idc (c : Z) : bool := (c =? 95) || ascii_letter c || is_decimal c.
 Definition id0 (c : Z) : bool := (c =? 95) || ascii_letter c.
@@ -293,7 +297,7 @@ Section WithOracle.
     assert (Ek : (0 <? k) = true) by (apply Z.ltb_lt; lia). rewrite Ek.
     destruct (numterm_flags c Hc) as (E46 & E101 & E112 & E120 & E111 & E98).
     pose proof Hc as (Hca & Hcd & Hc95 & _). apply Z.eqb_neq in Hc95.
-    unfold scan_number.
+    unfold scan_number, scan_intpart, scan_fraction, scan_exponent.
     destruct (d0 =? 48) eqn:E0.
     - (* the literal "0" *)
       destruct Hz as [Hz|Hz]; [apply Z.eqb_eq in E0; contradiction|]. subst t. cbn [app].
@@ -316,5 +320,283 @@ Section WithOracle.
       replace (pos + blen t + 1 - 1 - (pos - 1)) with (Z.of_nat (S (length t))) by (unfold blen; lia).
       rewrite Nat2Z.id. change ([d0] ++ t ++ c :: r) with ((d0 :: t) ++ c :: r).
       rewrite firstn_app_exact by reflexivity. reflexivity.
+  Qed.
+
+  (** ---------------------------------------------------------- decimal literals with fraction / exponent *)
+
+  (** a character at which a run of digits stops *)
+  Definition stopc (c : Z) : Prop := ascii c /\ is_decimal c = false /\ c <> 95.
+
+  Lemma numterm_stopc : forall c, numterm c -> stopc c.
+  Proof. intros c (? & ? & ? & _). split; [assumption|split; assumption]. Qed.
+
+  Lemma digits_stop : forall f c base inv digsep s, (base <=? 10) = true -> is_decimal c = false -> c <> 95 ->
+    digits f c base inv digsep s = SOk (c, digsep, inv, s).
+  Proof.
+    intros f c base inv digsep s Hb Hd H95. apply Z.eqb_neq in H95.
+    destruct f; cbn [digits]; rewrite Hb, Hd, H95; reflexivity.
+  Qed.
+
+  (** a run of decimal digits in base 8 or 10 (the "invalid digit" bookkeeping is irrelevant here) *)
+  Lemma digits_any : forall ds f d c r last pos l k ll x ws base inv digsep,
+    (base <=? 10) = true -> (length ds < f)%nat -> is_decimal d = true -> Forall (fun a => is_decimal a = true) ds -> stopc c ->
+    exists inv', digits f d base inv digsep (mkS (ds ++ c :: r) last pos l k ll x ws)
+                 = SOk (c, Z.lor digsep 1, inv', stepS c r (pos + blen ds) l (k + blen ds) ll x ws).
+  Proof.
+    induction ds as [|a ds IH]; intros f d c r last pos l k ll x ws base inv digsep Hb Hf Hd Hds (Hca & Hcd & Hc95).
+    - destruct f as [|f]; [cbn in Hf; lia|]. cbn [digits app]. rewrite Hb. rewrite Hd. cbn [orb].
+      destruct (is_decimal_ascii d Hd) as (_ & _ & H95 & _). apply Z.eqb_neq in H95. rewrite H95.
+      rewrite next_step by assumption. cbn [sbind]. rewrite blen_nil, !Z.add_0_r.
+      eexists. rewrite digits_stop by assumption. reflexivity.
+    - destruct f as [|f]; [cbn in Hf; lia|]. cbn [digits app]. rewrite Hb. rewrite Hd. cbn [orb].
+      destruct (is_decimal_ascii d Hd) as (_ & _ & H95 & _). apply Z.eqb_neq in H95. rewrite H95.
+      inversion Hds as [|? ? Ha Hds']; subst. destruct (is_decimal_ascii a Ha) as (Haa & Ha10 & _ & _).
+      rewrite next_step by assumption. cbn [sbind]. rewrite stepS_plain by assumption.
+      match goal with |- context [digits f a base ?I ?D _] =>
+        destruct (IH f a c r [a] (pos + 1) l (k + 1) ll x ws base I D Hb ltac:(cbn in Hf; lia) Ha Hds' (conj Hca (conj Hcd Hc95))) as (inv' & E) end.
+      exists inv'. rewrite E. rewrite blen_cons. rewrite <- Z.lor_assoc. change (Z.lor 1 1) with 1.
+      replace (pos + 1 + blen ds) with (pos + (1 + blen ds)) by lia.
+      replace (k + 1 + blen ds) with (k + (1 + blen ds)) by lia. reflexivity.
+  Qed.
+
+  Lemma digits_any10 : forall ds f d c r last pos l k ll x ws,
+    (length ds < f)%nat -> is_decimal d = true -> Forall (fun a => is_decimal a = true) ds -> stopc c ->
+    digits f d 10 0 0 (mkS (ds ++ c :: r) last pos l k ll x ws)
+    = SOk (c, 1, 0, stepS c r (pos + blen ds) l (k + blen ds) ll x ws).
+  Proof.
+    induction ds as [|a ds IH]; intros f d c r last pos l k ll x ws Hf Hd Hds (Hca & Hcd & Hc95).
+    - destruct f as [|f]; [cbn in Hf; lia|]. cbn [digits app]. change (10 <=? 10) with true. cbv iota. rewrite Hd. cbn [orb].
+      destruct (is_decimal_ascii d Hd) as (_ & _ & H95 & H58). apply Z.eqb_neq in H95. rewrite H95.
+      change (48 + 10) with 58. rewrite H58. cbn [andb negb].
+      rewrite next_step by assumption. cbn [sbind]. rewrite blen_nil, !Z.add_0_r.
+      rewrite digits_stop by (try reflexivity; assumption). reflexivity.
+    - destruct f as [|f]; [cbn in Hf; lia|]. cbn [digits app]. change (10 <=? 10) with true. cbv iota. rewrite Hd. cbn [orb].
+      destruct (is_decimal_ascii d Hd) as (_ & _ & H95 & H58). apply Z.eqb_neq in H95. rewrite H95.
+      change (48 + 10) with 58. rewrite H58. cbn [andb negb].
+      inversion Hds as [|? ? Ha Hds']; subst. destruct (is_decimal_ascii a Ha) as (Haa & Ha10 & _ & _).
+      rewrite next_step by assumption. cbn [sbind]. rewrite stepS_plain by assumption.
+      change (Z.lor 0 1) with 1.
+      assert (Hgen : forall ds f d pos k ds0, (length ds < f)%nat -> is_decimal d = true -> Forall (fun a => is_decimal a = true) ds ->
+                digits f d 10 0 1 (mkS (ds ++ c :: r) ds0 pos l k ll x ws)
+                = SOk (c, 1, 0, stepS c r (pos + blen ds) l (k + blen ds) ll x ws)).
+      { clear - Hca Hcd Hc95. induction ds as [|a ds IH]; intros f d pos k ds0 Hf Hd Hds.
+        - destruct f as [|f]; [cbn in Hf; lia|]. cbn [digits app]. change (10 <=? 10) with true. cbv iota. rewrite Hd. cbn [orb].
+          destruct (is_decimal_ascii d Hd) as (_ & _ & H95 & H58). apply Z.eqb_neq in H95. rewrite H95.
+          change (48 + 10) with 58. rewrite H58. cbn [andb negb].
+          rewrite next_step by assumption. cbn [sbind]. rewrite blen_nil, !Z.add_0_r.
+          rewrite digits_stop by (try reflexivity; assumption). reflexivity.
+        - destruct f as [|f]; [cbn in Hf; lia|]. cbn [digits app]. change (10 <=? 10) with true. cbv iota. rewrite Hd. cbn [orb].
+          destruct (is_decimal_ascii d Hd) as (_ & _ & H95 & H58). apply Z.eqb_neq in H95. rewrite H95.
+          change (48 + 10) with 58. rewrite H58. cbn [andb negb].
+          inversion Hds as [|? ? Ha Hds']; subst. destruct (is_decimal_ascii a Ha) as (Haa & Ha10 & _ & _).
+          rewrite next_step by assumption. cbn [sbind]. rewrite stepS_plain by assumption. change (Z.lor 1 1) with 1.
+          rewrite IH by (try assumption; cbn in Hf; lia). rewrite blen_cons.
+          replace (pos + 1 + blen ds) with (pos + (1 + blen ds)) by lia.
+          replace (k + 1 + blen ds) with (k + (1 + blen ds)) by lia. reflexivity. }
+      rewrite Hgen by (try assumption; cbn in Hf; lia). rewrite blen_cons.
+      replace (pos + 1 + blen ds) with (pos + (1 + blen ds)) by lia.
+      replace (k + 1 + blen ds) with (k + (1 + blen ds)) by lia. reflexivity.
+  Qed.
+
+  (** literal parts *)
+  Definition frac_text (fp : option bytes) : bytes := match fp with Some f => 46 :: f | None => [] end.
+  Definition exp_text (ex : option (Z * option Z * bytes)) : bytes :=
+    match ex with
+    | Some (e, sg, ds) => e :: (match sg with Some sg0 => [sg0] | None => [] end) ++ ds
+    | None => []
+    end.
+  Definition digits1 (ds : bytes) : Prop := exists d0 t, ds = d0 :: t /\ is_decimal d0 = true /\ Forall (fun a => is_decimal a = true) t.
+  Definition wf_frac (fp : option bytes) : Prop := match fp with Some f => digits1 f | None => True end.
+  Definition wf_exp (ex : option (Z * option Z * bytes)) : Prop :=
+    match ex with
+    | Some (e, sg, ds) => (e = 101 \/ e = 69) /\ (match sg with Some sg0 => sg0 = 43 \/ sg0 = 45 | None => True end) /\ digits1 ds
+    | None => True
+    end.
+
+  Definition pfx_ok (b p : Z) : Prop := (b = 10 /\ p = 0) \/ (b = 8 /\ p = 48).
+
+  (** integer part followed by a character that is neither a digit nor '.' *)
+  Lemma intpart_nodot : forall d0 t0 c1 r pos l k ll x ws,
+    (length t0 + 1 < F)%nat -> is_decimal d0 = true -> Forall (fun a => is_decimal a = true) t0 -> (d0 <> 48 \/ t0 = []) ->
+    stopc c1 -> c1 <> 46 -> lower c1 <> 120 -> lower c1 <> 111 -> lower c1 <> 98 ->
+    exists b p, pfx_ok b p /\
+      scan_intpart F d0 (mkS (t0 ++ c1 :: r) [d0] pos l k ll x ws)
+      = SOk (b, p, 1, 0, c1, false, stepS c1 r (pos + blen t0) l (k + blen t0) ll x ws).
+  Proof.
+    intros d0 t0 c1 r pos l k ll x ws HF Hd Ht Hz Hst H46 Hx Ho Hb. pose proof Hst as (Hca & Hcd & Hc95).
+    apply Z.eqb_neq in H46, Hx, Ho, Hb. unfold scan_intpart. destruct (d0 =? 48) eqn:E0.
+    - destruct Hz as [Hz|Hz]; [apply Z.eqb_eq in E0; contradiction|]. subst t0. cbn [app].
+      rewrite next_step by assumption. cbn [sbind]. rewrite Hx, Ho, Hb. cbn [sbind].
+      rewrite digits_stop by (try reflexivity; assumption). cbn [sbind].
+      rewrite H46. change (Z.lor 1 0) with 1. rewrite blen_nil, !Z.add_0_r. exists 8, 48. split; [right; auto|reflexivity].
+    - cbn [sbind]. rewrite digits_any10 by (try assumption; lia).
+      cbn [sbind]. rewrite H46. change (Z.lor 0 1) with 1. exists 10, 0. split; [left; auto|reflexivity].
+  Qed.
+
+  (** integer part followed by '.' and the character [c2] *)
+  Lemma intpart_dot : forall d0 t0 c2 r pos l k ll x ws,
+    (length t0 + 1 < F)%nat -> is_decimal d0 = true -> Forall (fun a => is_decimal a = true) t0 -> (d0 <> 48 \/ t0 = []) ->
+    ascii c2 ->
+    exists b p, pfx_ok b p /\
+      scan_intpart F d0 (mkS (t0 ++ 46 :: c2 :: r) [d0] pos l k ll x ws)
+      = SOk (b, p, 1, 0, c2, true, stepS c2 r (pos + blen t0 + 1) l (k + blen t0 + 1) ll x ws).
+  Proof.
+    intros d0 t0 c2 r pos l k ll x ws HF Hd Ht Hz Hc2.
+    assert (H46 : stopc 46) by (repeat split; try reflexivity; unfold ascii; lia).
+    unfold scan_intpart. destruct (d0 =? 48) eqn:E0.
+    - destruct Hz as [Hz|Hz]; [apply Z.eqb_eq in E0; contradiction|]. subst t0. cbn [app].
+      rewrite next_step by (unfold ascii; lia). cbn [sbind]. change (lower 46 =? 120) with false. change (lower 46 =? 111) with false.
+      change (lower 46 =? 98) with false. cbn [sbind]. rewrite stepS_plain by discriminate.
+      rewrite digits_stop by (try reflexivity; discriminate). cbn [sbind]. change (46 =? 46) with true. cbv iota.
+      rewrite next_step by assumption. cbn [sbind]. change (Z.lor 1 0) with 1. rewrite blen_nil, !Z.add_0_r.
+      exists 8, 48. split; [right; auto|reflexivity].
+    - cbn [sbind]. rewrite digits_any10 by (try assumption; lia). cbn [sbind]. change (46 =? 46) with true. cbv iota.
+      rewrite stepS_plain by discriminate. rewrite next_step by assumption. cbn [sbind]. change (Z.lor 0 1) with 1.
+      exists 10, 0. split; [left; auto|reflexivity].
+  Qed.
+
+  Lemma fraction_run : forall b p f0 ft c r last pos l k ll x ws,
+    pfx_ok b p -> (length ft + 1 < F)%nat -> is_decimal f0 = true -> Forall (fun a => is_decimal a = true) ft -> stopc c ->
+    exists inv', scan_fraction F b p 1 0 f0 true (mkS (ft ++ c :: r) last pos l k ll x ws)
+                 = SOk (TFloat, 1, inv', c, stepS c r (pos + blen ft) l (k + blen ft) ll x ws).
+  Proof.
+    intros b p f0 ft c r last pos l k ll x ws Hp HF Hd Ht Hc. unfold scan_fraction.
+    assert (Eb : (b <=? 10) = true) by (destruct Hp as [(-> & _)|(-> & _)]; reflexivity).
+    assert (Ep : ((p =? 111) || (p =? 98)) = false) by (destruct Hp as [(_ & ->)|(_ & ->)]; reflexivity).
+    rewrite Ep. destruct (digits_any ft F f0 c r last pos l k ll x ws b 0 0 Eb ltac:(lia) Hd Ht Hc) as (inv' & E).
+    rewrite E. cbn [sbind]. change (Z.lor 1 (Z.lor 0 1)) with 1. exists inv'. reflexivity.
+  Qed.
+
+  Lemma exponent_none : forall p tok ds c s, (p = 0 \/ p = 48) -> lower c <> 101 -> lower c <> 112 ->
+    scan_exponent F p tok ds c s = SOk (tok, ds, c, s).
+  Proof.
+    intros p tok ds c s Hp He Hpp. unfold scan_exponent. apply Z.eqb_neq in He, Hpp. rewrite He, Hpp. cbn [orb].
+    assert (E : (p =? 120) = false) by (destruct Hp as [-> | ->]; reflexivity). rewrite E. reflexivity.
+  Qed.
+
+  Lemma exponent_run : forall p tok e sg d0 dt c r last pos l k ll x ws,
+    (p = 0 \/ p = 48) -> (e = 101 \/ e = 69) -> (match sg with Some sg0 => sg0 = 43 \/ sg0 = 45 | None => True end) ->
+    (length dt + 3 < F)%nat -> is_decimal d0 = true -> Forall (fun a => is_decimal a = true) dt -> stopc c ->
+    scan_exponent F p tok 1 e (mkS ((match sg with Some sg0 => [sg0] | None => [] end) ++ (d0 :: dt) ++ c :: r) last pos l k ll x ws)
+    = SOk (TFloat, 1, c, stepS c r (pos + blen (match sg with Some sg0 => [sg0] | None => [] end) + blen (d0 :: dt))
+                               l (k + blen (match sg with Some sg0 => [sg0] | None => [] end) + blen (d0 :: dt)) ll x ws).
+  Proof.
+    intros p tok e sg d0 dt c r last pos l k ll x ws Hp He Hsg HF Hd Hdt Hc. unfold scan_exponent.
+    assert (E1 : (lower e =? 101) = true) by (destruct He as [-> | ->]; reflexivity).
+    assert (E2 : (lower e =? 112) = false) by (destruct He as [-> | ->]; reflexivity).
+    rewrite E1, E2. cbn [orb andb].
+    assert (E3 : (negb (p =? 0) && negb (p =? 48)) = false) by (destruct Hp as [-> | ->]; reflexivity). rewrite E3.
+    destruct (is_decimal_ascii d0 Hd) as (Ha0 & H10 & _ & _).
+    destruct sg as [sg0|]; cbn [app].
+    - assert (Hsa : ascii sg0 /\ sg0 <> 10 /\ ((sg0 =? 43) || (sg0 =? 45)) = true) by (destruct Hsg as [-> | ->]; repeat split; try reflexivity; try discriminate; unfold ascii; lia).
+      destruct Hsa as (Hsa & Hs10 & Es). rewrite next_step by assumption. cbn [sbind]. rewrite Es.
+      rewrite stepS_plain by assumption. rewrite next_step by assumption. cbn [sbind]. rewrite stepS_plain by assumption.
+      rewrite digits_any10 by (try assumption; lia). cbn [sbind]. change (Z.land 1 1 =? 0) with false. cbv iota.
+      change (Z.lor 1 1) with 1. change (blen [sg0]) with 1. rewrite blen_cons. f_equal. f_equal. apply stepS_eq0; lia.
+    - rewrite next_step by assumption. cbn [sbind].
+      assert (En : ((d0 =? 43) || (d0 =? 45)) = false).
+      { unfold is_decimal in Hd. apply andb_true_iff in Hd. destruct Hd. apply orb_false_iff. split; apply Z.eqb_neq; lia. }
+      rewrite En. cbn [sbind]. rewrite stepS_plain by assumption.
+      rewrite digits_any10 by (try assumption; lia). cbn [sbind]. change (Z.land 1 1 =? 0) with false. cbv iota.
+      change (Z.lor 1 1) with 1. change (blen []) with 0. rewrite blen_cons. f_equal. f_equal. apply stepS_eq0; lia.
+  Qed.
+
+  Definition lit_tail (t0 : bytes) (fp : option bytes) (ex : option (Z * option Z * bytes)) : bytes :=
+    t0 ++ frac_text fp ++ exp_text ex.
+
+  Lemma stopc_e : forall e, e = 101 \/ e = 69 -> stopc e /\ e <> 46 /\ lower e <> 120 /\ lower e <> 111 /\ lower e <> 98 /\ e <> 10.
+  Proof. intros e [-> | ->]; repeat split; try reflexivity; try discriminate; unfold ascii; lia. Qed.
+
+  (** the state and token after a number scan, shared by the cases below *)
+  Lemma scan_body_finish : forall (tok : Z) d0 L c r pos l k ll x ws P' K' src0 tp,
+    0 < k -> P' = pos + blen L -> K' = k + blen L -> src0 = (d0 :: L) ++ c :: r -> tp = pos - 1 ->
+    SOk ({| t_typ := tok; t_pos := {| p_line := l; p_column := k; p_offset := tp |};
+            t_txt := firstn (Z.to_nat (s_pos (stepS c r P' l K' ll x ws) - blen (s_last (stepS c r P' l K' ll x ws)) - tp)) src0 |},
+         set_ch (stepS c r P' l K' ll x ws) c)
+    = SOk ({| t_typ := tok; t_pos := {| p_line := l; p_column := k; p_offset := pos - 1 |}; t_txt := d0 :: L |},
+           stepS c r (pos + blen L) l (k + blen L) ll c ws).
+  Proof.
+    intros tok d0 L c r pos l k ll x ws P' K' src0 tp Hk -> -> -> ->.
+    rewrite stepS_pos, stepS_last, set_ch_stepS.
+    replace (pos + blen L + 1 - 1 - (pos - 1)) with (Z.of_nat (S (length L))) by (unfold blen; lia).
+    rewrite Nat2Z.id. rewrite firstn_app_exact by reflexivity. reflexivity.
+  Qed.
+
+  (** scanning a decimal literal: integer part [d0 :: t0], optional fraction, optional exponent *)
+  Ltac nf_app := repeat (first [rewrite <- app_assoc | progress cbn [app]]).
+  Ltac nf_app_in H := repeat (first [rewrite <- app_assoc in H | progress cbn [app] in H]).
+
+  Lemma scan_body_literal : forall d0 t0 fp ex c r pos l k ll x ws,
+    (length (lit_tail t0 fp ex) + 4 < F)%nat -> 0 < k ->
+    is_decimal d0 = true -> Forall (fun a => is_decimal a = true) t0 -> (d0 <> 48 \/ t0 = []) ->
+    wf_frac fp -> wf_exp ex -> numterm c ->
+    exists typ, (typ = TInt \/ typ = TFloat) /\
+      scan_body d0 (mkS (lit_tail t0 fp ex ++ c :: r) [d0] pos l k ll x ws)
+      = SOk ({| t_typ := typ; t_pos := {| p_line := l; p_column := k; p_offset := pos - 1 |}; t_txt := d0 :: lit_tail t0 fp ex |},
+             stepS c r (pos + blen (lit_tail t0 fp ex)) l (k + blen (lit_tail t0 fp ex)) ll c ws).
+  Proof.
+    intros d0 t0 fp ex c r pos l k ll x ws HF Hk Hd Ht Hz Hfp Hex Hc.
+    destruct fp as [f|], ex as [[[e sg] ds]|]; unfold lit_tail in *; cbn [frac_text exp_text app] in *.
+    4: { rewrite app_nil_r in *. exists TInt. split; [left; reflexivity|]. apply scan_body_uint; try assumption. lia. }
+    all: exists TFloat; split; [right; reflexivity|].
+    all: destruct (is_decimal_ascii d0 Hd) as (Ha0 & _ & _ & _).
+    all: unfold scan_body; rewrite (ident_rune_first d0 Ha0), (decimal_not_id0 d0 Hd), Hd.
+    all: cbn [s_last s_rest s_pos s_col s_line mkS].
+    all: assert (Ek : (0 <? k) = true) by (apply Z.ltb_lt; lia); rewrite Ek.
+    all: pose proof Hc as (Hca & Hcd & Hc95 & Hc46 & Hce & Hcp & _); pose proof (numterm_stopc c Hc) as Hcs.
+    all: unfold scan_number.
+    - (* fraction and exponent *)
+      destruct Hfp as (f0 & ft & -> & Hf0 & Hft). destruct Hex as (He & Hsg & (x0 & xt & -> & Hx0 & Hxt)).
+      destruct (stopc_e e He) as (Hes & _ & _ & _ & _ & He10). destruct (is_decimal_ascii f0 Hf0) as (Hfa & Hf10 & _ & _).
+      repeat (rewrite app_length in HF || cbn [length] in HF).
+      nf_app.
+      destruct (intpart_dot d0 t0 f0 (ft ++ e :: (match sg with Some sg0 => [sg0] | None => [] end) ++ (x0 :: xt) ++ c :: r)
+                  pos l k ll x ws ltac:(lia) Hd Ht Hz Hfa) as (b & p & Hp & E1).
+      nf_app_in E1. nf_app. rewrite E1. cbn [sbind].
+      rewrite stepS_plain by assumption.
+      destruct (fraction_run b p f0 ft e ((match sg with Some sg0 => [sg0] | None => [] end) ++ (x0 :: xt) ++ c :: r) [f0]
+                  (pos + blen t0 + 1 + 1) l (k + blen t0 + 1 + 1) ll x ws Hp ltac:(lia) Hf0 Hft Hes) as (inv' & E2).
+      nf_app_in E2. rewrite E2. cbn [sbind]. change (Z.land 1 1 =? 0) with false. cbv iota.
+      rewrite stepS_plain by assumption.
+      assert (Hp' : p = 0 \/ p = 48) by (destruct Hp as [(_ & ->)|(_ & ->)]; auto).
+      pose proof (exponent_run p TFloat e sg x0 xt c r [e] (pos + blen t0 + 1 + 1 + blen ft + 1) l (k + blen t0 + 1 + 1 + blen ft + 1) ll x ws
+                    Hp' He Hsg ltac:(lia) Hx0 Hxt Hcs) as E3.
+      nf_app_in E3. rewrite E3. cbn [sbind].
+      change (TFloat =? TInt) with false. cbn [andb]. change (Z.land 1 2 =? 0) with true. cbn [negb andb].
+      apply (scan_body_finish TFloat d0 (t0 ++ 46 :: f0 :: ft ++ e :: (match sg with Some sg0 => [sg0] | None => [] end) ++ x0 :: xt));
+        [exact Hk| | |nf_app; reflexivity|change (blen [d0]) with 1; reflexivity];
+        repeat (rewrite blen_app || rewrite blen_cons); destruct sg; rewrite ?blen_nil; lia.
+    - (* fraction only *)
+      destruct Hfp as (f0 & ft & -> & Hf0 & Hft). destruct (is_decimal_ascii f0 Hf0) as (Hfa & Hf10 & _ & _).
+      repeat (rewrite app_length in HF || cbn [length] in HF). rewrite app_nil_r in *.
+      nf_app.
+      destruct (intpart_dot d0 t0 f0 (ft ++ c :: r) pos l k ll x ws ltac:(lia) Hd Ht Hz Hfa) as (b & p & Hp & E1).
+      rewrite E1. cbn [sbind]. rewrite stepS_plain by assumption.
+      destruct (fraction_run b p f0 ft c r [f0] (pos + blen t0 + 1 + 1) l (k + blen t0 + 1 + 1) ll x ws Hp ltac:(lia) Hf0 Hft Hcs) as (inv' & E2).
+      rewrite E2. cbn [sbind]. change (Z.land 1 1 =? 0) with false. cbv iota.
+      assert (Hp' : p = 0 \/ p = 48) by (destruct Hp as [(_ & ->)|(_ & ->)]; auto).
+      rewrite exponent_none by assumption. cbn [sbind].
+      change (TFloat =? TInt) with false. cbn [andb]. change (Z.land 1 2 =? 0) with true. cbn [negb andb].
+      apply (scan_body_finish TFloat d0 (t0 ++ 46 :: f0 :: ft));
+        [exact Hk| | |nf_app; reflexivity|change (blen [d0]) with 1; reflexivity];
+        repeat (rewrite blen_app || rewrite blen_cons); lia.
+    - (* exponent only *)
+      destruct Hex as (He & Hsg & (x0 & xt & -> & Hx0 & Hxt)).
+      destruct (stopc_e e He) as (Hes & He46 & Hex' & Heo & Heb & He10).
+      repeat (rewrite app_length in HF || cbn [length] in HF).
+      nf_app.
+      destruct (intpart_nodot d0 t0 e ((match sg with Some sg0 => [sg0] | None => [] end) ++ (x0 :: xt) ++ c :: r) pos l k ll x ws
+                  ltac:(lia) Hd Ht Hz Hes He46 Hex' Heo Heb) as (b & p & Hp & E1).
+      nf_app_in E1. rewrite E1. cbn [sbind].
+      unfold scan_fraction. cbn [sbind]. change (Z.land 1 1 =? 0) with false. cbv iota.
+      rewrite stepS_plain by assumption.
+      assert (Hp' : p = 0 \/ p = 48) by (destruct Hp as [(_ & ->)|(_ & ->)]; auto).
+      pose proof (exponent_run p TInt e sg x0 xt c r [e] (pos + blen t0 + 1) l (k + blen t0 + 1) ll x ws
+                    Hp' He Hsg ltac:(lia) Hx0 Hxt Hcs) as E3.
+      nf_app_in E3. rewrite E3. cbn [sbind].
+      change (TFloat =? TInt) with false. cbn [andb]. change (Z.land 1 2 =? 0) with true. cbn [negb andb].
+      apply (scan_body_finish TFloat d0 (t0 ++ e :: (match sg with Some sg0 => [sg0] | None => [] end) ++ x0 :: xt));
+        [exact Hk| | |nf_app; reflexivity|change (blen [d0]) with 1; reflexivity];
+        repeat (rewrite blen_app || rewrite blen_cons); destruct sg; rewrite ?blen_nil; lia.
   Qed.
 End WithOracle.
